@@ -24,8 +24,8 @@ func Load(env types.EnvType) {
 	call.CallOverrideFN(env, "reset!", reset_BANG)
 	call.Call(env, future_call)
 	call.Call(env, future_cancel)
-	call.CallOverrideFN(env, "future-cancelled?", func(f *Future) (bool, error) { return f.Cancelled, nil })
-	call.CallOverrideFN(env, "future-done?", func(f *Future) (bool, error) { return f.Done, nil })
+	call.CallOverrideFN(env, "future-cancelled?", func(f *Future) (bool, error) { return f.IsCancelled(), nil })
+	call.CallOverrideFN(env, "future-done?", func(f *Future) (bool, error) { return f.IsDone(), nil })
 	call.CallOverrideFN(env, "future?", func(f MalType) (bool, error) { return Q[*Future](f), nil })
 	call.Call(env, new_future_call)
 }
@@ -103,6 +103,7 @@ type Future struct {
 	ValChan    chan MalType
 	ErrChan    chan error
 	CancelFunc context.CancelFunc
+	mu         sync.Mutex // guards Done and Cancelled
 	Done       bool
 	Cancelled  bool
 
@@ -124,8 +125,11 @@ func NewFuture(ctx context.Context, fn MalFunc) *Future {
 		Fn:         fn,
 	}
 	go func() {
-		defer func() { f.Done = true }()
 		res, err := Apply(ctx, fn, nil)
+		// done before the outcome can be seen by any Deref
+		f.mu.Lock()
+		f.Done = true
+		f.mu.Unlock()
 		if err != nil {
 			f.ErrChan <- err
 			return
@@ -136,7 +140,21 @@ func NewFuture(ctx context.Context, fn MalFunc) *Future {
 	return f
 }
 
+func (f *Future) IsDone() bool {
+	f.mu.Lock()
+	defer f.mu.Unlock()
+	return f.Done
+}
+
+func (f *Future) IsCancelled() bool {
+	f.mu.Lock()
+	defer f.mu.Unlock()
+	return f.Cancelled
+}
+
 func (f *Future) Cancel() bool {
+	f.mu.Lock()
+	defer f.mu.Unlock()
 	if !f.Done {
 		f.Cancelled = true
 		f.Done = true
